@@ -178,18 +178,19 @@ def run_scenarios(tmp, scenarios, tag, timeout=1800, nshards=None):
                     if e["ev"] == "end":
                         keep += cur
                         cur = []
-                msg = [l for l in c.out.splitlines() if l.startswith("panic:") or l.startswith("fatal error:")][:1]
+                msg = [l for l in c.out.splitlines() if l.startswith("panic:") or l.startswith("fatal error:") or l.startswith("VF-HANG")][:1]
+                how = "hang" if "VF-HANG scenario=" in c.out else "panic"
                 if last is not None:
                     head = [e for e in good if e.get("ev") == "reset" and e.get("id") == last][:1]
-                    keep += head + [{"ev": "panic", "seq": 0, "t": 0, "msg": (msg or ["crash"])[0]}, {"ev": "end", "id": last, "seq": 0, "t": 0}]
+                    keep += head + [{"ev": how, "seq": 0, "t": 0, "msg": (msg or ["crash"])[0]}, {"ev": "end", "id": last, "seq": 0, "t": 0}]
                 fixed = outp + ".fixed"
                 vf.write_ndjson(fixed, keep)
                 parts.append(fixed)
                 ids = [s["id"] for s in todo]
-                if last in ids:
+                if last in ids and how != "hang":
                     todo = todo[ids.index(last) + 1:]
                 else:
-                    todo = []
+                    todo = []           # (after a deadlock the rest of the shard is not run: every one would cost the watchdog's 45 s)
                 if not todo:
                     break
         return parts
